@@ -43,6 +43,7 @@ type Inst struct {
 	Map     orda.Map
 	List    orda.List
 	Doc     orda.Document
+	handles map[string]orda.Document // doc: child documents seen at each path (kept after removal)
 }
 
 // Replica is a replica of the model: a real instance, how much of its buffer was pushed, and
